@@ -202,6 +202,41 @@ theorem marshalList_wireOk : ∀ es : List Expr, wireOkList (marshalList es) = t
   | e :: es => by simp [marshalList, wireOkList, marshal_wireOk e, marshalList_wireOk es]
 end
 
+theorem wireOkFields_append (a b : Fields) :
+    wireOkFields (a ++ b) = (wireOkFields a && wireOkFields b) := by
+  induction a with
+  | nil => simp [wireOkFields]
+  | cons hd tl ih => obtain ⟨k, v⟩ := hd; simp [wireOkFields, ih, Bool.and_assoc]
+
+theorem wireOkFields_optField (k : String) (e : Bool) (v : Json) (hv : v.wireOk = true) :
+    wireOkFields (optField k e v) = true := by
+  cases e <;> simp [optField, wireOkFields, hv]
+
+theorem wireOkFields_optExpr (k : String) (e : Expr) : wireOkFields (optExpr k e) = true := by
+  have := marshal_wireOk e
+  cases e <;> simp_all [optExpr, marshalRaw, wireOkFields]
+
+theorem wireOkList_strs (l : List String) : wireOkList (l.map Json.str) = true := by
+  induction l with
+  | nil => rfl
+  | cons a t ih => simp [wireOkList, Json.wireOk, ih]
+
+/-- what `MarshalJSON` hands to the encoder is always printable (no NaN/±Inf reaches it) -/
+theorem marshalQuery_wireOk (q : Query) : (marshalQuery q).wireOk = true := by
+  simp [marshalQuery, Json.wireOk, queryFields, wireOkFields_append, wireOkFields_optExpr,
+    wireOkFields_optField, wireOkFields, marshalList_wireOk, wireOkList_strs]
+  repeat' constructor
+  all_goals exact wireOkFields_optField _ _ _ rfl
+
+/-- through the text layer, statement level: the bytes the root sends decode at the leaf to the
+statement the root planned (under the guards) -/
+theorem wire_query_roundtrip_partial (C : TextCodec) (q : Query) (hf : q.wellFormed = true)
+    (hi : (1000 : Int) ∣ q.interval) (hs : (1000 : Int) ∣ q.storageInterval) :
+    (C.parse (C.encode (marshalQuery q))).bind unmarshalQuery = .ok q := by
+  rw [C.parse_encode _ (marshalQuery_wireOk q)]
+  simp only [Except.bind]
+  exact query_roundtrip_partial q hf hi hs
+
 /-- through the text layer: root `Marshal` → bytes → leaf `Unmarshal`, every finite tree -/
 theorem wire_expr_roundtrip_partial (C : TextCodec) (e : Expr) (h : e.wellFormed = true) :
     (C.parse (C.encode (marshal e))).bind (fun j => unmarshal (some j)) = .ok e := by
